@@ -506,6 +506,36 @@ theorem module_id_not_injective_counterexample :
     sourceOf (collect (registerAll [t1, t2]) 2) t1 = none := by
   refine ⟨by decide, by decide +kernel, by decide +kernel, by decide +kernel, by decide +kernel⟩
 
+/-- `ModuleInfo.source` removes a byte order mark with `startswith` + slice: exactly one, only as a prefix
+(regenerated from the AST of the property) -/
+theorem source_strips_exactly_one_bom : Generated.Paths8.sourceStripsOneBom = true := by decide
+
+/-- **`Template.source` is path independent for templates held as bytes**: on every path that keeps the bytes of the
+template (file in memory, module directory, re-loaded module file, `ModuleTemplate` over bytes, `get_def(n)` of
+those) `source` decodes exactly the bytes the lexer decoded when the template was compiled – so it is the text the
+string path holds – for every byte string (whatever its first bytes, with or without a byte order mark, also a BOM
+followed by U+FEFF) and every codec.  (That decoding the lexer's payload gives the template text is C18's
+`source_is_decoded_text`; the statement here is the agreement of the paths.) -/
+theorem source_path_independent (dec : Bytes → Option Str) (b : Bytes) :
+    sourceOfBytes dec b = dec (lexerPayload b) ∧
+    (∀ payload, bomUtf8.isPrefixOf payload = false → sourceOfBytes dec payload = dec payload) ∧
+    (∀ payload, sourceOfBytes dec (bomUtf8 ++ payload) = dec payload) := by
+  have h := source_strips_exactly_one_bom
+  refine ⟨by simp [sourceOfBytes, sourcePayload, lexerPayload, h], ?_, ?_⟩
+  · intro payload hp
+    simp [sourceOfBytes, sourcePayload, stripBomOnce, h, hp]
+  · intro payload
+    simp [sourceOfBytes, sourcePayload, stripBomOnce, h, bomUtf8]
+
+example : sourceOfBytes (fun b => some (b.map Char.ofNat)) [0xEF, 0xBB, 0xBF, 0xEF, 0xBB, 0xBF, 0x68] =
+    some ([0xEF, 0xBB, 0xBF, 0x68].map Char.ofNat) := by decide
+
+/-- why "exactly one, as a prefix" matters (documentation): stripping the BOM's *bytes* eats the first character of a
+utf-8 text that starts with U+FF08 (bytes EF BC 88), and the first character `»` / `¿` / `ï` of a latin-1 text -/
+theorem source_lstrip_counterexample :
+    sourcePayload false [0xEF, 0xBC, 0x88, 0x61] = [0xBC, 0x88, 0x61] ∧ lexerPayload [0xEF, 0xBC, 0x88, 0x61] = [0xEF, 0xBC, 0x88, 0x61] ∧
+    sourcePayload false [0xBF, 0x61] = [0x61] ∧ lexerPayload [0xBF, 0x61] = [0xBF, 0x61] := by decide
+
 /-- **`Template.code` of a module-file template is the CURRENT content of its module file**: after any history of
 file (re)writes it answers with what the last write to its module file put there (the file's earlier content if the
 history never touched it) – never with something remembered from an earlier access; a template that holds its module
